@@ -311,20 +311,47 @@ def _guard_threshold(fn_node, cmp_node, kconst=None):
             return fold(env[t.id], n, close, depth + 1)
         raise Unknown()
 
-    for node in ast.walk(fn_node):
-        if isinstance(node, ast.If) and any(isinstance(b, ast.Raise) for b in node.body):
-            try:
-                rows = [(n, fold(node.test, n, False), fold(node.test, n, True)) for n in range(0, 12)]
-            except Unknown:
-                continue
-            except Exception:
-                continue
-            if any(c for (_n, _r, c) in rows):
-                return None            # raises although the residual is zero: not an existence guard
-            raising = [n for (n, r, _c) in rows if r]
-            if not raising or raising != list(range(raising[0], 12)):
-                return None
-            return raising[0] - 1
+    # path conditions of every `raise` of the function: the tests of the enclosing ifs (negated on the else side) and the
+    # negated tests of earlier siblings that leave the function (`if c: return ...` before the raise)
+    def leaves(body):
+        return bool(body) and isinstance(body[-1], (ast.Return, ast.Raise))
+
+    found = []
+
+    def walk(body, conds):
+        conds = list(conds)
+        for s_ in body:
+            if isinstance(s_, ast.Raise):
+                found.append(list(conds))
+            elif isinstance(s_, ast.If):
+                walk(s_.body, conds + [(s_.test, True)])
+                walk(s_.orelse, conds + [(s_.test, False)])
+                if leaves(s_.body) and not leaves(s_.orelse):
+                    conds.append((s_.test, False))
+                elif leaves(s_.orelse) and not leaves(s_.body):
+                    conds.append((s_.test, True))
+            elif isinstance(s_, (ast.For, ast.While, ast.With, ast.Try)):
+                for sub in (getattr(s_, "body", []), getattr(s_, "orelse", []), getattr(s_, "finalbody", [])):
+                    walk(sub, conds)
+    walk(fn_node.body, [])
+    for conds in found:
+        if not any(cmp_node in list(ast.walk(t_)) or any(isinstance(x, ast.Name) and x.id in env and cmp_node in list(ast.walk(env[x.id])) for x in ast.walk(t_))
+                   for (t_, _p) in conds):
+            continue
+        try:
+            def holds(n, close):
+                return all(fold(t_, n, close) == pol for (t_, pol) in conds)
+            rows = [(n, holds(n, False), holds(n, True)) for n in range(0, 12)]
+        except Unknown:
+            continue
+        except Exception:
+            continue
+        if any(c for (_n, _r, c) in rows):
+            return None            # raises although the residual is zero: not an existence guard
+        raising = [n for (n, r, _c) in rows if r]
+        if not raising or raising != list(range(raising[0], 12)):
+            return None
+        return raising[0] - 1
     return None
 
 
